@@ -10,7 +10,7 @@ from ..vloop import VLoop, make_bumble_classifier
 class World:
     """with World(n) as w: ... ; w.loop is the VLoop (already 'running')."""
 
-    def __init__(self, n=2, seed=0, controller_attrs=None, device_kwargs=None, classic=False, le=True):
+    def __init__(self, n=2, seed=0, controller_attrs=None, device_kwargs=None, classic=False, le=True, direct=False):
         determinism.install()
         determinism.reset(seed)
         self.n = n
@@ -18,6 +18,9 @@ class World:
         self.device_kwargs = device_kwargs or {}
         self.classic = classic
         self.le = le
+        # direct=True: the host hands its HCI packets to the controller synchronously (Host(controller, controller), as
+        # many of bumble's examples wire it) instead of through an AsyncPipeSink
+        self.direct = direct
 
     def __enter__(self):
         from bumble.controller import Controller
@@ -41,7 +44,7 @@ class World:
         for i in range(self.n):
             d = Device(
                 address=Address(self.addresses[i]),
-                host=Host(self.controllers[i], AsyncPipeSink(self.controllers[i])),
+                host=Host(self.controllers[i], self.controllers[i] if self.direct else AsyncPipeSink(self.controllers[i])),
                 **self.device_kwargs.get(i, {}),
             )
             d.classic_enabled = self.classic
